@@ -1,6 +1,10 @@
 (* C07 — shipped rewriters never narrow, never crash, fire only on their trigger.
-   (First tranche; the monotonicity development is in Proofs/RewriteMono.v once built.) *)
-From MT Require Import Rewrite Constants.
+   Model: Model/Rewrite.v (generic traversal + every shipped rewriter; DEFAULT_REWRITER regenerated from source).
+   The model is total by construction (every rewriter is a total function ty -> ty: "never crashes" for the model;
+   that the implementation does not raise is decided per case by the correspondence check).
+   Reading: an inferred type is read TIGHTLY on input (Any only stands for "nothing was seen": List[Any] admits only
+   the empty list), and as an annotation on output (Any admits everything). *)
+From MT Require Import Types TypesFacts Rewrite Hier RewriteHier RewriteMono Constants.
 
 (* The model of DEFAULT_REWRITER is the one the source declares today (Gen/Constants.v is
    regenerated from monkeytype/typing.py on every run): every member is a modelled rewriter. *)
@@ -12,3 +16,62 @@ Print Assumptions default_chain_modelled.
 Theorem noop_identity : forall h bt t, rw h bt RNoOp t = t.
 Proof. intros h bt t. destruct t; reflexivity. Qed.
 Print Assumptions noop_identity.
+
+(* Every shipped rewriter, on every well-formed type, for every class table whose MROs are closed: every value the
+   input admits (tight reading) is admitted by the output (annotation reading). *)
+Theorem rw_never_narrows :
+  forall h bt, wf_hier h = true -> bt_ok h bt = true ->
+  forall r t v, wf_ty t -> member false (subclass h) v t = true -> member true (subclass h) v (rw h bt r t) = true.
+Proof. exact rw_mono_tight_annot. Qed.
+Print Assumptions rw_never_narrows.
+
+(* Sharper, reading by reading: every rewriter except RemoveEmptyContainers is monotone under the annotation
+   reading; every rewriter except RewriteLargeUnion is monotone under the tight reading. *)
+Theorem rw_never_narrows_annotation :
+  forall h bt, wf_hier h = true -> bt_ok h bt = true ->
+  forall r t v, r <> RRemoveEmpty -> wf_ty t ->
+    member true (subclass h) v t = true -> member true (subclass h) v (rw h bt r t) = true.
+Proof. exact rw_mono_annot. Qed.
+Print Assumptions rw_never_narrows_annotation.
+
+Theorem rw_never_narrows_tight :
+  forall h bt, wf_hier h = true -> bt_ok h bt = true ->
+  forall r t v, (forall n, r <> RLargeUnion n) -> wf_ty t ->
+    member false (subclass h) v t = true -> member false (subclass h) v (rw h bt r t) = true.
+Proof. exact rw_mono_tight. Qed.
+Print Assumptions rw_never_narrows_tight.
+
+(* Chains (hence all pairs): any chain in which RemoveEmptyContainers never runs after a RewriteLargeUnion *)
+Theorem chain_never_narrows :
+  forall h bt, wf_hier h = true -> bt_ok h bt = true ->
+  forall rs t v, chain_ok rs = true -> wf_ty t ->
+    member false (subclass h) v t = true -> member true (subclass h) v (rw_chain h bt rs t) = true.
+Proof. exact rw_chain_ok_mono. Qed.
+Print Assumptions chain_never_narrows.
+
+(* ... in particular the default chain, whatever the source declares it to be today *)
+Theorem default_chain_never_narrows :
+  forall h bt, wf_hier h = true -> bt_ok h bt = true ->
+  forall rs t v, default_chain = Some rs -> wf_ty t ->
+    member false (subclass h) v t = true -> member true (subclass h) v (rw_chain h bt rs t) = true.
+Proof. exact default_chain_mono. Qed.
+Print Assumptions default_chain_never_narrows.
+
+(* rewriting keeps types well formed (so the theorems chain) *)
+Theorem rw_well_formed : forall h bt r t, wf_ty t -> wf_ty (rw h bt r t).
+Proof. exact rw_wf. Qed.
+Print Assumptions rw_well_formed.
+
+(* the hypothesis on the class table is what makes issubclass transitive *)
+Theorem subclass_transitive :
+  forall h c a b, wf_hier h = true -> subclass h c a = true -> subclass h a b = true -> subclass h c b = true.
+Proof. exact RewriteHier.subclass_trans. Qed.
+Print Assumptions subclass_transitive.
+
+Example ex_c07_nonvacuous :
+  wf_hier ex_h = true /\ bt_ok ex_h ex_bt = true /\ wf_ty ex_t
+  /\ member false (subclass ex_h) ex_v ex_t = true
+  /\ rw ex_h ex_bt RRemoveEmpty ex_t <> ex_t.
+Proof. repeat split; try exact (proj1 ex_hyps); try (vm_compute; reflexivity); try (vm_compute; discriminate).
+  all: try (destruct ex_hyps as (A & B & C); assumption).
+Qed.
